@@ -145,71 +145,7 @@ def transitive_cd(b):
     return get
 
 
-def bypass_of_draw(b, blk):
-    """a path that completes the unit of work the draw belongs to (one loop iteration if the draw is inside a loop,
-    else the whole body up to its normal return) without passing the draw; refusals (aborts, `?`, Err) do not count.
-    Returns the span of the block from which the bypass completes, or None."""
-    succ = b.succ()
-    div = b.diverging()
-    refusing = set(div)
-    for i, x in enumerate(b.blocks):
-        t = x["term"]
-        if t["k"] == "call" and (t.get("callee") or "").endswith("from_residual"):
-            refusing.add(i)
-        for st in x["stmts"]:
-            rv = st["rv"]
-            if rv.get("k") == "agg" and rv.get("adt") == "std::result::Result" and rv.get("variant") == "Err":
-                refusing.add(i)
-    cyc = RNG.cyclic_blocks(b)
-    if blk in cyc:
-        # innermost natural loop containing the draw: back edges x -> h with h dominating x
-        pred = b.pred()
-        best = None
-        for x in range(len(b.blocks)):
-            for h in succ[x]:
-                if not b.dominates(h, x):
-                    continue
-                body = {h, x}
-                st = [x]
-                while st:
-                    y = st.pop()
-                    if y == h:
-                        continue
-                    for z in pred[y]:
-                        if z not in body:
-                            body.add(z)
-                            st.append(z)
-                if blk in body and (best is None or len(body) < len(best[1])):
-                    best = (h, body)
-        if best is None:
-            return None
-        h, scc = best
-        if h == blk:
-            return None
-        seen = set()
-        st = [y for y in succ[h] if y in scc]
-        while st:
-            x = st.pop()
-            if x in seen or x == blk or x in refusing or b.blocks[x]["cleanup"]:
-                continue
-            seen.add(x)
-            for y in succ[x]:
-                if y == h:
-                    return b.blocks[x]["term"].get("span") or b.span
-                if y in scc:
-                    st.append(y)
-        return None
-    seen = set()
-    st = [0]
-    while st:
-        x = st.pop()
-        if x in seen or x == blk or x in refusing or b.blocks[x]["cleanup"]:
-            continue
-        seen.add(x)
-        if b.blocks[x]["term"]["k"] == "return":
-            return b.blocks[x]["term"].get("span") or b.span
-        st.extend(succ[x])
-    return None
+from ..rules.everyiter import bypass_of_block as bypass_of_draw  # noqa: E402
 
 
 def bypass_loop_of(b, blk):
